@@ -203,7 +203,7 @@ def class_level_stores():
                     tg = n.targets if isinstance(n, ast.Assign) else [n.target]
                     for t in tg:
                         if isinstance(t, ast.Attribute) and class_obj(t.value):
-                            stores.append((t.attr, n.lineno, n.value))
+                            stores.append((t.attr, n.lineno, n.value, isinstance(n, ast.AugAssign)))
             if not stores:
                 continue
             muts = {}
@@ -216,11 +216,13 @@ def class_level_stores():
                     for t in n.targets:
                         if isinstance(t, ast.Subscript) and isinstance(t.value, ast.Attribute) and class_obj(t.value.value):
                             muts.setdefault(t.value.attr, []).append(n.lineno)
-            for attr, ln, val in stores:
+            for attr, ln, val, rmw in stores:
                 empty = (isinstance(val, (ast.List, ast.Dict, ast.Set)) and not (getattr(val, 'elts', None) or getattr(val, 'keys', None))) or \
                         (isinstance(val, ast.Call) and isinstance(val.func, ast.Name) and val.func.id in ('list', 'dict', 'set') and not val.args)
                 later = [m for m in muts.get(attr, []) if m > ln]
-                shape = 'PublishThenFill' if later else 'SingleStore'
+                # x.A += ... (or A = f(A) spelt out) is process-wide state that changes while the library works: not a write-once cache at all
+                reads_self = any(isinstance(y, ast.Attribute) and y.attr == attr and class_obj(y.value) for y in ast.walk(val))
+                shape = 'ReadModifyWrite' if (rmw or reads_self) else ('PublishThenFill' if later else 'SingleStore')
                 sites.append((rel, fn.name, fn.lineno, fn.end_lineno, attr, ln, shape))
     return sorted(set(sites))
 
@@ -1134,7 +1136,7 @@ def main():
     cls_sites = class_level_stores()
     side['class_level_stores'] = cls_sites
     o.append('(* every store to a class-level attribute in the library: file, function, attribute, line, shape *)')
-    o.append('Inductive store_shape := SPublishThenFill | SSingleStore.')
+    o.append('Inductive store_shape := SPublishThenFill | SSingleStore | SReadModifyWrite.')
     o.append('Definition class_level_stores : list (string * string * string * N * store_shape) := [' + ';\n '.join(
         '(%s, %s, %s, %d%%N, %s)' % (cq(f), cq(fn), cq(a), ln, 'S' + sh) for f, fn, _, _, a, ln, sh in cls_sites) + '].')
     lz = lazy_instance_stores()
